@@ -46,3 +46,26 @@ pub fn run(w: &[&str]) -> String {
         Err(x) => format!("err {}", eclass(&x))
     }
 }
+
+/// `enciter <array|map> <exact|loose|even|open> <n1,n2,...|->`: `encode::ArrayIter` / `MapIter` over iterators
+/// whose size hint is exact, loose (upper bound only), over-estimating (filter drops the odd items) or open-ended.
+pub fn run_iter(w: &[&str]) -> String {
+    use minicbor::encode::{ArrayIter, MapIter};
+    let vals: Vec<u32> = match w.get(2).copied().unwrap_or("-") {
+        "-" => Vec::new(),
+        s => match s.split(',').map(|x| x.parse::<u32>()).collect::<Result<Vec<_>, _>>() { Ok(v) => v, Err(_) => return "bad-op".into() }
+    };
+    let pairs: Vec<(u32, u32)> = vals.iter().enumerate().map(|(i, v)| (i as u32, *v)).collect();
+    let r = match (w[0], w[1]) {
+        ("array", "exact") => minicbor::to_vec(ArrayIter::new(vals.iter())),
+        ("array", "loose") => minicbor::to_vec(ArrayIter::new(vals.iter().filter(|_| true))),
+        ("array", "even")  => minicbor::to_vec(ArrayIter::new(vals.iter().filter(|x| **x % 2 == 0))),
+        ("array", "open")  => minicbor::to_vec(ArrayIter::new(vals.iter().copied().chain(std::iter::from_fn(|| None::<u32>)))),
+        ("map", "exact") => minicbor::to_vec(MapIter::new(pairs.iter().map(|p| (p.0, p.1)))),
+        ("map", "loose") => minicbor::to_vec(MapIter::new(pairs.iter().map(|p| (p.0, p.1)).filter(|_| true))),
+        ("map", "even")  => minicbor::to_vec(MapIter::new(pairs.iter().map(|p| (p.0, p.1)).filter(|p| p.1 % 2 == 0))),
+        ("map", "open")  => minicbor::to_vec(MapIter::new(pairs.iter().map(|p| (p.0, p.1)).chain(std::iter::from_fn(|| None::<(u32, u32)>)))),
+        _ => return "bad-op".into()
+    };
+    match r { Ok(b) => hex(&b), Err(x) => format!("err {}", eclass(&x)) }
+}
